@@ -423,12 +423,26 @@ Qed.
    account (signers are distinct): stated as a hypothesis on the transaction *)
 Definition tx_ok (t : tx) : Prop := t_wit cfg t <> a_notary cfg.
 
+(* a wrapped operation either faults or is the operation itself *)
+Lemma run_lim_some st pre post o nacct body st' r :
+  run_lim cfg st pre post o nacct body = Some (st', r) -> body = Some (st', r).
+Proof.
+  unfold run_lim. destruct (add_notifs 0 pre); [|discriminate].
+  destruct body as [[s1 r1]|]; [|discriminate].
+  destruct (add_notifs z _); [|discriminate]. destruct (add_notifs z0 post); [|discriminate].
+  intros H; inv H. reflexivity.
+Qed.
+
 Lemma run_op_bal st t st' r :
   WF (L st) -> tx_ok t -> run_op cfg st t = Some (st', r) -> Bal st st'.
 Proof.
   intros Hwf Ht. unfold run_op, tx_ok in *.
   set (wt := t_wit cfg t) in *.
   destruct (t_op t).
+  - intros H. apply run_lim_some in H. revert H. unfold run_lop. fold wt. destruct o.
+    + apply neo_transfer_bal; auto. intros E. apply N.eqb_eq in E. congruence.
+    + apply gas_transfer_bal; auto. intros E. apply N.eqb_eq in E. congruence.
+    + apply vote_bal; auto. intros E. apply N.eqb_eq in E. congruence.
   - apply neo_transfer_bal; auto. intros E. apply N.eqb_eq in E. congruence.
   - apply gas_transfer_bal; auto. intros E. apply N.eqb_eq in E. congruence.
   - apply vote_bal; auto. intros E. apply N.eqb_eq in E. congruence.
